@@ -31,7 +31,13 @@ ModelVerdict(ev) ==
         alt == IF ev.op.op = "mark_position" /\ ev.op.pos = 0 /\ MarkSlotPosition(ev.pre, 0) = 0
                THEN Flat(<<E("bm", 0)>> \o ev.pre)
                ELSE IF ev.op.op = "mark_range" /\ ev.op.a = 0 /\ ev.op.b = 0 /\ MarkSlotPosition(ev.pre, 0) = 0
-               THEN Flat(<<E("bm", 0), E("bm", 0)>> \o ev.pre) ELSE want
+               THEN Flat(<<E("bm", 0), E("bm", 0)>> \o ev.pre)
+               (* ReferenceMarkStart.delete(): the matching end mark (token "pair") goes too, when the library finds it *)
+               ELSE IF ev.op.op = "delete" /\ Has(ev.op, "pair") /\ ev.op.pair # ev.op.i
+               THEN LET hi == IF ev.op.pair > ev.op.i THEN ev.op.pair ELSE ev.op.i
+                        lo == IF ev.op.pair > ev.op.i THEN ev.op.i ELSE ev.op.pair
+                    IN Flat(DeleteAt(DeleteAt(ev.pre, hi), lo))
+               ELSE want
     IN  (IF Flat(ev.post) \notin {want, alt} THEN {"differs-from-model"} ELSE {})
    \cup (IF ev.op.op \in Inserting /\ Vis(ev.post) # Vis(ev.pre) THEN {"text-altered"} ELSE {})
    \cup (IF ev.op.op = "strip_tags" /\ Vis(ev.post) # Vis(ev.pre) THEN {"removal-lost-text"} ELSE {})
